@@ -265,6 +265,22 @@ def draw_op(rng, W, H, cfg):
 def structured_ops(rng, W, H, cfg):
     """clip rect at an offset / clip path / transform in any order, then 0-2 nested layers, 1-3 draws, pops:
     the combinations that index arithmetic bugs need (layer origin != 0 under a clip path, nested layers...)"""
+    if rng.random() < 0.12 and W >= 3 and H >= 3:
+        # a layer pushed under a small clip rectangle that is popped while the layer is still open: the clip in force
+        # is then larger than the layer, and whatever is drawn must stay inside the layer's own rows and columns
+        x0, y0 = rng.randrange(0, W - 1), rng.randrange(0, H - 1)
+        x1, y1 = rng.randrange(x0 + 1, W + 1), rng.randrange(y0 + 1, H + 1)
+        ops = ["cliprect %d %d %d %d" % (x0, y0, x1, y1),
+               "layer %d %d" % (gen.alpha_bits(rng), 3 if rng.random() < 0.5 else rng.randrange(gen.N_MODES)), "popclip"]
+        for _ in range(rng.randrange(1, 3)):
+            if rng.random() < 0.5:
+                ops.append("fillrect %d %d %d %d %s %s" % (FB(float(rng.randrange(-2, 2))), FB(float(rng.randrange(-2, H))), FB(float(W + 4)),
+                                                         FB(float(rng.randrange(1, 3))), rand_source(rng, W, H, cfg.get("sources")),
+                                                         rand_opts(rng, cfg.get("modes"))))
+            else:
+                ops.append(draw_op(rng, W, H, cfg))
+        ops.append("poplayer")
+        return ops
     ops, pops = [], []
     pre = []
     if rng.random() < 0.75:
